@@ -9,7 +9,10 @@ import (
 
 	"github.com/safing/portbase/database"
 	"github.com/safing/portbase/database/query"
+	"github.com/safing/portbase/api"
 	"github.com/safing/portbase/database/record"
+	"github.com/safing/portbase/runtime"
+	"github.com/safing/portbase/verifsim/simrt"
 	"github.com/safing/portbase/verifsim/simkit"
 )
 
@@ -34,7 +37,7 @@ type C03Op struct {
 	Wrapped bool   `json:"wrapped,omitempty"`
 }
 
-var c03ClientKinds = []string{"get", "exists", "query", "feed", "insert", "setabs", "setrel", "makesecret", "makecrown", "delete", "purge", "putmany", "put", "putnew"}
+var c03ClientKinds = []string{"get", "exists", "query", "feed", "insert", "setabs", "setrel", "makesecret", "makecrown", "delete", "purge", "putmany", "put", "putnew", "rtget", "rtquery", "rtfeed", "apiget", "apiquery", "apisub", "apiupdate", "apiinsert", "apidelete"}
 
 func genC03(rng *rand.Rand, tier string) *C03Plan {
 	p := &C03Plan{Backend: []string{"hashmap", "hashmap", "fstree", "bbolt", "bbolt"}[rng.IntN(5)], Shadow: rng.IntN(2) == 0}
@@ -54,7 +57,7 @@ func genC03(rng *rand.Rand, tier string) *C03Plan {
 		op := C03Op{Key: rng.IntN(5), Seed: rng.IntN(1 << 20), Prefix: rng.IntN(len(prefixPool)), Wrapped: rng.IntN(2) == 0}
 		if rng.IntN(3) == 0 || i == 0 {
 			op.Who = "priv"
-			op.Kind = []string{"put", "put", "put", "makesecret", "makecrown", "delete"}[rng.IntN(6)]
+			op.Kind = []string{"put", "put", "put", "makesecret", "makecrown", "delete", "rtset", "rtset"}[rng.IntN(8)]
 			op.Flags = rng.IntN(4)
 		} else {
 			op.Who = "client"
@@ -72,6 +75,12 @@ type c03State struct {
 	priv   *database.Interface
 	client *database.Interface
 	sub    *database.Subscription
+	rtSub  *database.Subscription
+	rtVals map[string]*mrec // runtime values by key
+	rtPush runtime.PushFunc
+	apiOut []string
+	dbapi  *api.DatabaseAPI
+	apiN   int
 }
 
 func (s *c03State) protected(key string) bool {
@@ -154,6 +163,51 @@ func execC03(p *C03Plan, rc *simkit.RunCtx) {
 		return
 	}
 	defer func() { _ = s.sub.Cancel() }()
+	// an injected runtime database whose provider serves flagged and unflagged values
+	s.rtVals = map[string]*mrec{}
+	if _, err := database.Register(&database.Database{Name: "runtime", Description: "sim runtime", StorageType: database.StorageTypeInjected}); err != nil {
+		rc.Fail("C03.harness", "register runtime db", err.Error())
+		return
+	}
+	reg := runtime.NewRegistry()
+	if err := reg.InjectAsDatabase("runtime"); err != nil {
+		rc.Fail("C03.harness", "inject runtime db", err.Error())
+		return
+	}
+	mkRT := func(key string, m *mrec) record.Record {
+		r := &Rec{N: m.Nonce, S: m.F.S}
+		r.SetKey("runtime:" + key)
+		r.CreateMeta()
+		if m.Secret {
+			r.Meta().MakeSecret()
+		}
+		if m.Crown {
+			r.Meta().MakeCrownJewel()
+		}
+		return r
+	}
+	push, err := reg.Register("vals/", runtime.SimpleValueGetterFunc(func(keyOrPrefix string) ([]record.Record, error) {
+		var out []record.Record
+		for _, k := range sortedKeys(s.rtVals) {
+			if strings.HasPrefix("vals/"+k, keyOrPrefix) || strings.HasPrefix(keyOrPrefix, "vals/"+k) {
+				out = append(out, mkRT("vals/"+k, s.rtVals[k]))
+			}
+		}
+		return out, nil
+	}))
+	if err != nil {
+		rc.Fail("C03.harness", "register runtime provider", err.Error())
+		return
+	}
+	s.rtPush = push
+	s.rtSub, err = s.client.Subscribe(query.New("runtime:vals/"))
+	if err != nil {
+		rc.Fail("C03.harness", "subscribe runtime", err.Error())
+		return
+	}
+	defer func() { _ = s.rtSub.Cancel() }()
+	a := api.CreateDatabaseAPI(func(data []byte) { s.apiOut = append(s.apiOut, string(data)) })
+	s.dbapi = &a
 	for oi, op := range p.Ops {
 		key := keyPool[op.Key]
 		full := dbName + ":" + key
@@ -184,6 +238,12 @@ func execC03(p *C03Plan, rc *simkit.RunCtx) {
 				if err := s.priv.Delete(full); err == nil {
 					s.model[key].Deleted = now
 				}
+			case "rtset":
+				nonceCounter++
+				m := &mrec{Nonce: fmt.Sprintf("r%d", nonceCounter), F: fieldsFromSeed(op.Seed), Secret: op.Flags&1 != 0, Crown: op.Flags&2 != 0}
+				m.flaggedAtWrite = (m.Secret && !p.Internal) || (m.Crown && !p.Local)
+				s.rtVals[key] = m
+				s.rtPush(mkRT("vals/"+key, m))
 			}
 			// Documented caveat of cached interfaces: changes made through another interface are
 			// not reflected. Staleness is not what this property is about, so the client's cache is
@@ -238,6 +298,120 @@ func execC03(p *C03Plan, rc *simkit.RunCtx) {
 					}
 				default:
 					more = false
+				}
+			}
+		case "rtget":
+			r, err := s.client.Get("runtime:vals/" + key)
+			if err == nil && s.rtLeak("get on the injected runtime database", nonceOf(r), when) {
+				return
+			}
+		case "rtquery":
+			it, err := s.client.Query(query.New("runtime:vals/"))
+			if err != nil {
+				break
+			}
+			for r := range it.Next {
+				if s.rtLeak("query on the injected runtime database", nonceOf(r), when) {
+					it.Cancel()
+					return
+				}
+			}
+		case "rtfeed":
+			for more := true; more; {
+				select {
+				case r := <-s.rtSub.Feed:
+					if r == nil {
+						more = false
+						break
+					}
+					n := nonceOf(r)
+					for _, m := range s.rtVals {
+						if m.Nonce == n && m.flaggedAtWrite {
+							rc.Fail("C03.leak", "a protected record pushed by an injected database reached the feed of a non-privileged subscriber", when+": "+n)
+							return
+						}
+					}
+				default:
+					more = false
+				}
+			}
+		case "apiget", "apiquery", "apisub", "apiupdate", "apiinsert", "apidelete":
+			s.apiN++
+			id := fmt.Sprintf("a%d", s.apiN)
+			mark := len(s.apiOut)
+			// the external API is neither local nor internal, whatever the client interface of this run is
+			protAPI := func(k string) bool {
+				m := s.model[k]
+				return m.visible(nowUnix()) && (m.Secret || m.Crown)
+			}
+			var msg string
+			switch op.Kind {
+			case "apiget":
+				msg = id + "|get|" + full
+			case "apiquery":
+				msg = id + "|query|query " + dbName + ":" + prefixPool[op.Prefix]
+			case "apisub":
+				msg = id + "|sub|query " + dbName + ":"
+			case "apiupdate":
+				msg = id + "|update|" + full + "|J{\"N\":\"api-" + id + "\"}"
+			case "apiinsert":
+				msg = id + "|insert|" + full + "|{\"S\":\"api-insert\"}"
+			case "apidelete":
+				msg = id + "|delete|" + full
+			}
+			wasProt := protAPI(key)
+			s.dbapi.Handle([]byte(msg))
+			simrt.AwaitQuiescence(100 * time.Millisecond)
+			if p.Cache > 0 {
+				s.client.ClearCache() // the API uses its own interface: a foreign change for the client's cache
+			}
+			if op.Kind == "apisub" {
+				// let a privileged re-put of every stored record flow through the subscription
+				for _, k := range sortedKeys(s.model) {
+					if m := s.model[k]; m.visible(nowUnix()) {
+						if r, err := s.priv.Get(dbName + ":" + k); err == nil {
+							_ = s.priv.Put(r)
+						}
+					}
+				}
+				simrt.AwaitQuiescence(100 * time.Millisecond)
+				s.dbapi.Handle([]byte(id + "|cancel"))
+				simrt.AwaitQuiescence(100 * time.Millisecond)
+			}
+			for _, out := range s.apiOut[mark:] {
+				for k, m := range s.model {
+					if protAPI(k) && strings.Contains(out, "\""+m.Nonce+"\"") {
+						rc.Fail("C03.leak", "a protected record was sent by the external database API ("+op.Kind+", "+p.Backend+")", when+": key "+k+" reply "+truncate(out, 120))
+						return
+					}
+				}
+			}
+			if wasProt && (op.Kind == "apiupdate" || op.Kind == "apiinsert" || op.Kind == "apidelete") {
+				okReply := false
+				for _, out := range s.apiOut[mark:] {
+					if strings.HasPrefix(out, id+"|success") {
+						okReply = true
+					}
+				}
+				if okReply {
+					rc.Fail("C03.write-allowed", op.Kind+" on a protected record succeeded through the external database API ("+p.Backend+")", when)
+					return
+				}
+			}
+			if !wasProt {
+				// legitimate changes through the API: track them
+				m := s.model[key]
+				for _, out := range s.apiOut[mark:] {
+					if strings.HasPrefix(out, id+"|success") {
+						switch op.Kind {
+						case "apiupdate":
+							s.model[key] = &mrec{Nonce: "api-" + id, Created: now, Modified: now}
+						case "apidelete":
+							if m != nil {
+								m.Deleted = now
+							}
+						}
+					}
 				}
 			}
 		case "insert", "setabs", "setrel", "makesecret", "makecrown", "delete", "put", "putnew", "putmany", "purge":
@@ -327,6 +501,24 @@ func execC03(p *C03Plan, rc *simkit.RunCtx) {
 		}
 	}
 	time.Sleep(time.Millisecond)
+}
+
+func truncate(x string, n int) string {
+	if len(x) > n {
+		return x[:n]
+	}
+	return x
+}
+
+// rtLeak reports a runtime value that the client may not see.
+func (s *c03State) rtLeak(path, nonce, when string) bool {
+	for k, m := range s.rtVals {
+		if m.Nonce == nonce && ((m.Secret && !s.p.Internal) || (m.Crown && !s.p.Local)) {
+			s.rc.Fail("C03.leak", "a protected record crossed a non-privileged interface via "+path, when+": key vals/"+k+" nonce "+nonce)
+			return true
+		}
+	}
+	return false
 }
 
 func (s *c03State) modelByNonce(n string) *mrec {
